@@ -182,11 +182,10 @@ func (w *walker) redir(r *ast.Redir) {
 	}
 	w.ws(r.Op + " ")
 	w.word(r.Word)
-	if r.Heredoc != nil || r.Delim != nil {
+	if r.Op == "<<" || r.Op == "<<-" {
+		// (the delimiter line is judged by C08, not part of the skeleton)
 		w.ws(" heredoc=")
 		w.word(r.Heredoc)
-		w.ws(" delim=")
-		w.word(r.Delim)
 	}
 	w.ws(")")
 }
